@@ -5,6 +5,10 @@
    Boundary resolution, any PASHA epsilon oracle) from the initial state; it is [Err] when a call
    of the real code would raise. *)
 From Verif Require Import model.Base model.Promotion proofs.PromotionProofs.
+From Verif Require model.Rung.
+From Coq Require Strings.String.
+Import String.StringSyntax.
+Delimit Scope string_scope with string.
 
 (* If suggest resumes trial t from rung position j (level [from]) of rung system s then, in the state
    before the call: (a) t has an unpromoted entry e there, admissible for the variant (RUSH threshold);
@@ -289,6 +293,95 @@ Proof.
   split; [reflexivity|]. split; [reflexivity|]. split; [reflexivity|]. split; [reflexivity|]. split; [reflexivity|].
   split; [eexists; split; reflexivity|]. split; [reflexivity|].
   eexists. split; [vm_compute; reflexivity|]. vm_compute. repeat split; reflexivity.
+Qed.
+
+(* ---- over the CONSTRUCTOR ARGUMENTS (make_config: maximum resource by Rung.v's
+   infer_max_resource_level, rung levels by Rung.v's sh_rung_levels) -------------------------------------- *)
+
+(* every scheduler the constructor accepts satisfies the hypotheses cfg_wf / cfg_pos of the theorems above *)
+Theorem c04_constructor_wf :
+  forall k cfg, make_config k = Some cfg -> cfg_wf cfg /\ cfg_pos cfg.
+Proof. exact make_config_wf. Qed.
+Print Assumptions c04_constructor_wf.
+
+(* its maximum resource is the documented one: the max_t argument; else the constant
+   config_space[max_resource_attr]; else the first constant among epochs / max_t / max_epochs *)
+Theorem c04_max_resource_documented :
+  forall k cfg, make_config k = Some cfg -> documented_max k (c_max_t cfg).
+Proof. exact make_config_max_t. Qed.
+Print Assumptions c04_max_resource_documented.
+
+(* never more than the documented maximum: every config[max_resource_attr] value handed out along any
+   event sequence is at most it ... *)
+Theorem c04_never_beyond_documented_max :
+  forall k cfg evs st os n br b got st' o v,
+  make_config k = Some cfg -> run cfg evs = Ok (st, os) -> suggest cfg st n br b got = Ok (st', o) ->
+  (exists t, o = OStart t (Some v)) \/ (exists t s j from nxt, o = OResume t (Some v) s j from nxt) ->
+  exists vmax, documented_max k vmax /\ (v <= vmax)%Z.
+Proof. exact ctor_resource_cap. Qed.
+Print Assumptions c04_never_beyond_documented_max.
+
+(* ... and a running trial's report is answered STOP exactly when it has reached that maximum *)
+Theorem c04_stop_at_documented_max :
+  forall k cfg evs st os t r m c eps ti br rs ms rf st' d,
+  make_config k = Some cfg -> run cfg evs = Ok (st, os) ->
+  lookup t (st_active st) = Some ti -> ti_dec ti = CONTINUE -> lookup t (st_task st) = Some br ->
+  nth_error (st_sys st) (fst (sys_of cfg br)) = Some rs -> lookup t (rs_running rs) = Some (ms, rf) ->
+  (1 <= r)%Z -> on_trial_result cfg st t r m c eps = Ok (st', d) ->
+  forall vmax, documented_max k vmax -> c_max_t cfg = vmax -> ((vmax <= r)%Z <-> d = STOP).
+Proof. exact ctor_stop_at_max. Qed.
+Print Assumptions c04_stop_at_documented_max.
+
+(* The level written into the config of a suggestion is the milestone the rung system stores for the
+   trial (in _running of the rung system of the bracket sampled in THIS suggest call, under which the
+   trial is (re-)registered in _task_info) — so, with c04_pause_at_milestone, the rung system pauses
+   the trial exactly at the level the script was told to run to. *)
+Theorem c04_suggestion_target_is_stored_milestone :
+  forall cfg st n br b got st' o,
+  suggest cfg st n br b got = Ok (st', o) ->
+  match o with
+  | OResume t mra s j from nxt =>
+      s = fst (sys_of cfg br) /\ mra = (if c_mra cfg then Some nxt else None) /\
+      lookup t (st_task st') = Some br /\
+      exists rs', nth_error (st_sys st') s = Some rs' /\ lookup t (rs_running rs') = Some (nxt, Some from)
+  | OStart t mra =>
+      lookup t (st_task st') = Some br /\
+      exists rs' ms, nth_error (st_sys st') (fst (sys_of cfg br)) = Some rs' /\
+        lookup t (rs_running rs') = Some (ms, None) /\ mra = (if c_mra cfg then Some ms else None)
+  | _ => True
+  end.
+Proof. exact suggestion_target_stored. Qed.
+Print Assumptions c04_suggestion_target_is_stored_milestone.
+
+(* a trial promoted from the top rung (position 0) is told to run to max_t *)
+Theorem c04_top_rung_promotes_to_max_t :
+  forall cfg evs st os n br b got st' t mra s from nxt,
+  cfg_wf cfg -> run cfg evs = Ok (st, os) ->
+  suggest cfg st n br b got = Ok (st', OResume t mra s 0%nat from nxt) ->
+  nxt = c_max_t cfg /\ mra = (if c_mra cfg then Some (c_max_t cfg) else None).
+Proof. exact top_rung_promotes_to_max_t. Qed.
+Print Assumptions c04_top_rung_promotes_to_max_t.
+
+(* non-vacuity: the constructor arguments of the C04-P scenario (max_resource_attr = "num_epochs" = 9 next
+   to a wallclock constant max_t = 3600, no max_t argument): the maximum is 9, rung levels 1 and 3, and a
+   trial promoted from the top rung (position 0, level 3) is told to run to 9 *)
+Example c04_example_constructor :
+  let k := mkCtor VPromotion Min None (Some "num_epochs"%string)
+             [("x"%string, None); ("max_t"%string, Some 3600%Z); ("num_epochs"%string, Some 9%Z)]
+             None 1 (Some 3) None 1 false false 0 (1 # 1000000000000) true in
+  exists cfg, make_config k = Some cfg /\ c_max_t cfg = 9%Z /\ c_levels cfg = [1%Z; 3%Z] /\ c_mra cfg = true /\
+    documented_max k 9 /\
+    exists st os, run cfg [Suggest 0 0 [] true; Suggest 1 0 [] true;
+                           Report 0 1 1 0 (mkO [] 0); Remove 0; Report 1 1 2 0 (mkO [] 0); Remove 1;
+                           Suggest 2 0 [] true; Report 0 2 1 0 (mkO [] 0); Report 0 3 1 0 (mkO [] 0); Remove 0;
+                           Suggest 2 0 [] true; Report 2 1 0 0 (mkO [] 0); Remove 2;
+                           Suggest 3 0 [] true; Report 2 2 1 0 (mkO [] 0); Report 2 3 2 0 (mkO [] 0); Remove 2;
+                           Suggest 3 0 [] true] = Ok (st, os) /\
+      last os OUnit = OResume 0 (Some 9%Z) 0 0 3 9.
+Proof.
+  eexists. split; [vm_compute; reflexivity|]. split; [reflexivity|]. split; [reflexivity|]. split; [reflexivity|].
+  split; [right; left; split; [reflexivity|]; eexists; split; reflexivity|].
+  eexists. eexists. split; [vm_compute; reflexivity|]. reflexivity.
 Qed.
 
 (* The boolean checkers the correspondence driver evaluates on protocol-following harness sequences
